@@ -1,10 +1,11 @@
 (* Extract_relax.v -- extraction of the relaxation models (C06) to OCaml.
    Directives: ExtractCommon.v (trusted base, DESIGN.md section 6).
-   BlockInst: the static_matrix<T,b,b> Scalar instance (block-valued smoothers, ops_relax_block.ml). *)
+   BlockInst: the static_matrix<T,b,b> Scalar instance (block-valued smoothers, ops_relax_block.ml).
+   ComplexInst: the std::complex Scalar instance (SPAI-0 with complex values, ops_relax_cplx.ml). *)
 From Amgcl Require Import ExtractCommon.
 From Coq Require Import QArith Qcanon.
 From Amgcl Require Import Scalar QcInst Vec Crs Kernels MatOps Relax Ilu Cheby DenseSolve Spai1
-  DirectUtil Inverse StaticMat BlockInst.
+  DirectUtil Inverse StaticMat BlockInst ComplexInst.
 Separate Extraction
   QcInst.QcS Scalar.is_zero Scalar.smax Scalar.smin
-  Vec Crs Kernels MatOps Relax Ilu Cheby DenseSolve Spai1 StaticMat BlockInst.
+  Vec Crs Kernels MatOps Relax Ilu Cheby DenseSolve Spai1 StaticMat BlockInst ComplexInst.
